@@ -267,7 +267,10 @@ def run_item(item, tier):
         nf[0] += info["fired"]
         return c, v, d, info
     restrict = item["first"]["elem"] if item.get("first") else None
-    res = bfs.explore(rh, make_enabled(shape, tier, restrict, item.get("noarm", False)), DEPTH[tier])
+    depth = DEPTH[tier]
+    if shape["kind"] == "allow" and tier == "thorough":
+        depth -= 1          # the largest alphabet (queries, faults and allow_none edits)
+    res = bfs.explore(rh, make_enabled(shape, tier, restrict, item.get("noarm", False)), depth)
     res.samples = [{"shape": shape, "history": h} for h in res.samples[:1]]
     out = res.as_item_result()
     out["counts"]["failed_queries"] = nf[0]
